@@ -1290,9 +1290,10 @@ func (p *parser) parseCharClassMatcher(chr *charClassMatcher) (any, bool) {
 		}
 	}
 
-	// try to match in the list of Unicode classes
+	// try to match in the list of Unicode classes: a class has no lower-cased spelling,
+	// so case-insensitively a rune is a member if one of its case forms is
 	for _, cl := range chr.classes {
-		if unicode.Is(cl, cur) {
+		if unicode.Is(cl, cur) || (chr.ignoreCase && isAnyCaseOf(cl, p.pt.rn)) {
 			if chr.inverted {
 				p.failAt(false, start.position, chr.val)
 				return nil, false
@@ -1310,6 +1311,19 @@ func (p *parser) parseCharClassMatcher(chr *charClassMatcher) (any, bool) {
 	}
 	p.failAt(false, start.position, chr.val)
 	return nil, false
+}
+
+// isAnyCaseOf reports whether r or one of its other case forms is in the class.
+func isAnyCaseOf(cl *unicode.RangeTable, r rune) bool {
+	if unicode.Is(cl, r) {
+		return true
+	}
+	for f := unicode.SimpleFold(r); f != r; f = unicode.SimpleFold(f) {
+		if unicode.Is(cl, f) {
+			return true
+		}
+	}
+	return false
 }
 
 // ==template== {{ if not .Optimize }}
